@@ -52,9 +52,11 @@ var Base = time.Unix(1_700_000_000, 0)
 var offset atomic.Int64 // nanoseconds since Base
 
 // ResetClock is called by scenarios at the start of an execution.
+//
+//go:norace
 func ResetClock() {
 	offset.Store(0)
-	tickersMu.Store(0)
+	vsched.NoteClock(0)
 	nTickers = 0
 }
 
@@ -84,11 +86,11 @@ func Until(t Time) Duration {
 // Advance moves the virtual clock; a schedule point of the calling scenario thread.
 func Advance(d Duration) {
 	vsched.EnvPoint("advance " + d.String())
-	offset.Add(int64(d))
+	vsched.NoteClock(offset.Add(int64(d)))
 }
 
 // AdvanceNoPoint moves the clock without a schedule point (set-up code).
-func AdvanceNoPoint(d Duration) { offset.Add(int64(d)) }
+func AdvanceNoPoint(d Duration) { vsched.NoteClock(offset.Add(int64(d))) }
 
 // Sleep under the scheduler is a voluntary switch point; virtual time does not move.
 func Sleep(d Duration) {
@@ -110,9 +112,8 @@ type Ticker struct {
 const maxTickers = 16
 
 var (
-	tickers   [maxTickers]*Ticker
-	nTickers  int
-	tickersMu atomic.Int32
+	tickers  [maxTickers]*Ticker
+	nTickers int
 )
 
 func NewTicker(d Duration) *Ticker {
